@@ -32,6 +32,7 @@ fn run(r: &mut Run) -> Result<(), MachineryError> {
     text_space(r, "C01/rich", &[L, SP, HY, TAB, ZW, NB, OP, CL, EM, E2, NL, D], t.pick(3, 5), &g, M_C01, WidthMode::Display, 3)?;
     text_space(r, "C01/sequences-with-hyphens", &[L, SP, HY, OSH, CSI, NL, D], t.pick(4, 6), &g, M_C01, WidthMode::Display, 3)?;
     char_context_space(r, "C01/all-characters-in-context", M_C01, algs_default())?;
+    reps::char_pair_space(r, "C01/representative-pairs", M_C01, algs_default())?;
     escape_scan_space(r, "C01/escape-grammar-scan", M_C01, algs_default())?;
     word_seq_space(r, "C01/word-sequences", M_C01, algs_default())?;
     scale::text_scale(r, "C01/long-paragraphs", "C01")
